@@ -461,6 +461,48 @@ class Gen:
 
 
 def generate(rng, profile=None):
+    if profile and profile.get("lattice"):
+        return call_lattice(rng, profile.get("keys"))
     g = Gen(rng, profile)
     prog, version, feats = g.program()
     return {"prog": prog, "version": version, "features": feats}
+
+
+def call_lattice(rng, keys=None):
+    """Programs whose interest is the call structure: 3-6 subroutines, each calling 0-4 later ones (shared callees,
+    diamonds), some approving the program themselves on a branch, checks of governed fields after calls."""
+    g = Gen(rng, {"direct_only": True, "gtxn": 0.0, "keys": keys or ["Addr", "Fee", "GroupSize", "OC"], "p_cf": 0.0, "intc": 0.0})
+    n = rng.randint(3, 6)
+    names = ["s%d" % i for i in range(n)]
+    prog = []
+
+    def check():
+        return g.cond() + [("assert",)]
+
+    main = []
+    for _ in range(rng.randint(1, 3)):
+        main.append(("callsub", rng.choice(names[:3])))
+        if rng.random() < 0.7:
+            main += check()
+    main += [("int", 1), ("return",)]
+    prog += main
+    for i, nm in enumerate(names):
+        body = [("label", nm)]
+        later = names[i + 1:]
+        callees = rng.sample(later, min(len(later), rng.randint(0, 4)))
+        if rng.random() < 0.45:
+            L = "x%d" % i
+            body += [("txn", "NumAppArgs"), ("int", i), ("=="), ] if False else [("txn", "NumAppArgs"), ("int", i), ("==",), ("bz", L)]
+            if rng.random() < 0.5:
+                body += check()
+            body += [("int", 1), ("return",), ("label", L)]
+        for c in callees:
+            body.append(("callsub", c))
+            if rng.random() < 0.3:
+                body += check()
+        body.append(("retsub",))
+        prog += body
+    version = max(min_version(prog), 6)
+    return {"prog": prog, "version": version, "features": ["call-lattice"]}
+
+
